@@ -354,7 +354,7 @@ class Module:
             inc = {}
             for mm in re.finditer(r'\[ ([^,]+), %([\w.$-]+) \]', m.group(2)):
                 inc[mm.group(2)] = O(mm.group(1), ty)
-            return ('phi', dst, inc)
+            return ('phi', dst, inc, ty)
         if op == 'br':
             m = re.match(r'br i1 (\S+), label %([\w.$-]+), label %([\w.$-]+)', ins)
             if m:
@@ -510,6 +510,13 @@ def is_sym(v):
     return isinstance(v, z3.ExprRef)
 
 
+def is_mergeable(v):
+    """finite double (concrete or symbolic): can be an arm of an if-then-else term"""
+    if isinstance(v, z3.ExprRef):
+        return True
+    return isinstance(v, (int, float)) and not isinstance(v, bool) and not (isinstance(v, float) and (math.isinf(v) or v != v))
+
+
 def tor(x):
     if isinstance(x, z3.ExprRef):
         if x.sort() == z3.IntSort():
@@ -568,6 +575,20 @@ def farith(op, a, b):
                     ex = pysym.CUR
                     return x if ex.branch(tor(y) >= 0) else -x
                 return 0.0
+    if op == 'fadd':
+        if fa and a == 0.0:
+            return tor(b)
+        if fb and b == 0.0:
+            return tor(a)
+    elif op == 'fsub' and fb and b == 0.0:
+        return tor(a)
+    elif op == 'fmul':
+        if (fa and a == 1.0):
+            return tor(b)
+        if (fb and b == 1.0):
+            return tor(a)
+        if (fa and a == 0.0) or (fb and b == 0.0):
+            return 0.0
     a, b = tor(a), tor(b)
     if op == 'fadd':
         return a + b
@@ -632,6 +653,8 @@ class Machine:
         self.objects = []
         self.allow_write = None     # optional predicate(obj) -> bool  (C20 store monitor)
         self.global_access = []     # accesses to mutable globals (C20 / C07 re-entrancy)
+        self.merge = True           # if-convert side-effect free diamonds on symbolic conditions
+        self.merges = 0
         self.trace_calls = []
 
     # ---- objects
@@ -870,12 +893,14 @@ class Machine:
         cur, prev = f.order[0], None
         code = f.code
         V = self._val
+        merged = False
         while True:
             phis, body = code[cur]
-            if phis:
+            if phis and not merged:
                 vals = [(d[1], V(d[2][prev], env)) for d in phis]
                 for k, v in vals:
                     env[k] = v
+            merged = False
             nxt = None
             for d in body:
                 self.steps += 1
@@ -897,7 +922,14 @@ class Machine:
                 elif op == 'icmp':
                     env[d[1]] = self._icmp(d[2], d[3], V(d[4], env), V(d[5], env))
                 elif op == 'cbr':
-                    nxt = d[2] if self.truth(V(d[1], env)) else d[3]
+                    cv = V(d[1], env)
+                    if isinstance(cv, z3.ExprRef) and self.merge:
+                        j = self._try_merge(f, cur, d[2], d[3], cv, env)
+                        if j is not None:
+                            nxt = j
+                            merged = True
+                            break
+                    nxt = d[2] if self.truth(cv) else d[3]
                     break
                 elif op == 'br':
                     nxt = d[1]
@@ -954,6 +986,119 @@ class Machine:
                 if self.steps > self.MAX_STEPS:
                     raise pysym.Inconclusive('step budget exhausted')
             prev, cur = cur, nxt
+
+    _SIMPLE = {'load', 'gep', 'bin', 'icmp', 'fcmp', 'fbin', 'select', 'cast', 'fneg'}
+
+    def _arm_info(self, f, blk):
+        """(join label) if blk is a side-effect free straight-line block ending in an unconditional branch"""
+        key = (f.name, blk)
+        hit = self.mod.__dict__.setdefault('_arm_cache', {}).get(key, 0)
+        if hit != 0:
+            return hit
+        phis, body = f.code[blk]
+        res = None
+        if not phis and body and body[-1][0] == 'br' and all(d[0] in self._SIMPLE for d in body[:-1]) and len(body) <= 12:
+            res = body[-1][1]
+        self.mod._arm_cache[key] = res
+        return res
+
+    def _spec_arm(self, f, blk, env):
+        """speculatively execute a simple arm on an overlay environment; returns the overlay or None"""
+        ov = dict(env)
+        V = self._val
+        try:
+            for d in f.code[blk][1][:-1]:
+                op = d[0]
+                if op == 'load':
+                    p = V(d[2], ov)
+                    if not isinstance(p, Ptr) or not isinstance(p.off, int):
+                        return None
+                    ov[d[1]] = self.load(p, d[3], d[4])
+                elif op == 'gep':
+                    p = V(d[2], ov)
+                    if not isinstance(p, Ptr):
+                        return None
+                    off = p.off + d[3]
+                    for io, scale in d[4]:
+                        off = off + V(io, ov) * scale
+                    ov[d[1]] = Ptr(p.obj, off)
+                elif op == 'bin':
+                    ov[d[1]] = self._bin(d, V(d[5], ov), V(d[6], ov))
+                elif op == 'icmp':
+                    ov[d[1]] = self._icmp(d[2], d[3], V(d[4], ov), V(d[5], ov))
+                elif op == 'fcmp':
+                    ov[d[1]] = fcmp(d[2], V(d[3], ov), V(d[4], ov))
+                elif op == 'fbin':
+                    a, b = V(d[3], ov), V(d[4], ov)
+                    for x in (a, b):
+                        if isinstance(x, float) and (math.isinf(x) or x != x) and d[2] in ('fmul', 'fdiv'):
+                            return None
+                    if d[2] == 'fdiv':
+                        return None
+                    ov[d[1]] = farith(d[2], a, b)
+                elif op == 'select':
+                    c = V(d[2], ov)
+                    a, b = V(d[3], ov), V(d[4], ov)
+                    if isinstance(c, z3.ExprRef) and not (d[5] == 'double' and is_mergeable(a) and is_mergeable(b)):
+                        return None
+                    ov[d[1]] = self._select(c, a, b, d[5])
+                elif op == 'cast':
+                    ov[d[1]] = self._cast(d[2], V(d[3], ov), d[4], d[5])
+                elif op == 'fneg':
+                    ov[d[1]] = -V(d[2], ov)
+        except (Violation, Unsupported, pysym.Inconclusive):
+            return None
+        return ov
+
+    def _try_merge(self, f, cur, tb, fb, cond, env):
+        """if-conversion of a side-effect free diamond / triangle on a symbolic condition; returns the join label"""
+        jt = self._arm_info(f, tb)
+        jf = self._arm_info(f, fb)
+        if jt is not None and jt == jf:
+            join, arms = jt, ((tb, tb), (fb, fb))
+        elif jt is not None and jt == fb:
+            join, arms = fb, ((tb, tb), (None, cur))
+        elif jf is not None and jf == tb:
+            join, arms = tb, ((None, cur), (fb, fb))
+        else:
+            return None
+        phis = f.code[join][0]
+        envs = []
+        for blk, pred in arms:
+            if blk is None:
+                envs.append((env, pred))
+            else:
+                ov = self._spec_arm(f, blk, env)
+                if ov is None:
+                    return None
+                envs.append((ov, pred))
+        vals = []
+        for d in phis:
+            inc = d[2]
+            if envs[0][1] not in inc or envs[1][1] not in inc:
+                return None
+            a = self._val(inc[envs[0][1]], envs[0][0])
+            b = self._val(inc[envs[1][1]], envs[1][0])
+            ty = d[3]
+            if ty == 'double':
+                if not (is_mergeable(a) and is_mergeable(b)):
+                    return None
+                vals.append((d[1], z3.If(cond, tor(a), tor(b))))
+            elif ty.startswith('i') and not ty.endswith('*'):
+                if isinstance(a, Ptr) or isinstance(b, Ptr) or a is UNDEF or b is UNDEF or a is NULL or b is NULL:
+                    return None
+                if not is_sym(a) and not is_sym(b) and a == b:
+                    vals.append((d[1], a))
+                elif ty == 'i1':
+                    vals.append((d[1], z3.If(cond, tob(a), tob(b))))
+                else:
+                    return None      # integer results steer indexing: keep them concrete by forking
+            else:
+                return None
+        for k, v in vals:
+            env[k] = v
+        self.merges += 1
+        return join
 
     def _val(self, o, env):
         if type(o) is str:
